@@ -2,8 +2,9 @@
    and for the cross-radix routine with negative offsets.
    This file holds only pinned statements, `exact` proofs, Print Assumptions and Examples. *)
 From PV Require Import Base.MachineInt Model.Znx Model.Limbs Model.LimbsBig Model.C08Oracle Proofs.ZnxDigit
-  Proofs.C08Steps Proofs.C08Chain Proofs.C08Loops Proofs.C08Value Proofs.C08Normalize
-  Proofs.C08WChain Proofs.C08WLoops Proofs.C08WNormalize.
+  Proofs.C08Steps Proofs.C08Chain Proofs.C08Loops Proofs.C08Value Proofs.C08Normalize Proofs.C08ShiftValue
+  Proofs.C08WChain Proofs.C08WLoops Proofs.C08WNormalize Proofs.C08WShiftValue Proofs.C08WRshValue Proofs.C08WCrossTheorem
+  Proofs.C08CrossNegKernels Proofs.C08CrossNegTheorem Proofs.C08CrossNegCoeffOk.
 Open Scope Z_scope.
 
 (* ---------------- the carry through a gap of zero limbs, any cap ---------------- *)
@@ -128,3 +129,218 @@ Theorem C08_wide_normalize_big_same_value : forall (b off : Z) (a r0 : list Z), 
     (zn (length a) * b - off <= zn (length r0) * b -> D = 0).
 Proof. exact normalize_big_same_value. Qed.
 Print Assumptions C08_wide_normalize_big_same_value.
+
+(* ---------------- cross-radix normalisation: every offset, both word widths ---------------- *)
+(* `normalize_cross_c w capbits` (Proofs/C08WCrossTheorem.v) is vec_znx_normalize_cross_base2k with the word width and
+   the cap of the gap rounding as parameters; the two routines of the library are instances, by computation *)
+Theorem C08_wide_normalize_cross_is_c128 : forall (w rb ab off : Z) (a r0 : list Z),
+  normalize_cross w rb ab off a r0 = normalize_cross_c w 128 rb ab off a r0.
+Proof. exact normalize_cross_is_c128. Qed.
+Print Assumptions C08_wide_normalize_cross_is_c128.
+
+Theorem C08_wide_normalize_cross_big_is_c192 : forall (w rb ab off : Z) (a r0 : list Z),
+  normalize_cross_big w rb ab off a r0 = normalize_cross_c w 192 rb ab off a r0.
+Proof. exact normalize_cross_big_is_c192. Qed.
+Print Assumptions C08_wide_normalize_cross_big_is_c192.
+
+(* gapbits_phase: rounding a carry c (within the headroom) through G gap bits in chunks of 32, capped at 32 kc bits:
+   c = S + 2^G c' with |S| <= 2^G - 1, for EVERY G >= 0 (beyond the cap the carry has vanished) *)
+Theorem C08_cross_neg_gapbits_spec : forall wd : Z, 34 <= wd -> forall (kc : nat) (G c : Z),
+  (1 <= kc <= 8)%nat -> wd - 2 <= 32 * (Z.of_nat kc - 1) -> 0 <= G -> Z.abs c <= 2 ^ (wd - 2) ->
+  let c' := gapbits_phase wd 8 (Z.min G (32 * Z.of_nat kc)) c in
+  exists S, c = S + 2 ^ G * c' /\ Z.abs S <= 2 ^ G - 1 /\ Z.abs c' <= 2 ^ (wd - 2) /\ (c = 0 -> c' = 0).
+Proof. exact gapbits_spec. Qed.
+Print Assumptions C08_cross_neg_gapbits_spec.
+
+(* the general statement: width wd >= 34, cap 32 kc bits with 32 (kc - 1) >= wd - 2, radices 1..wd-2, ANY offset *)
+Theorem C08_wide_normalize_cross_c_value : forall (wd : Z) (kc : nat) (rb ab : Z), 34 <= wd -> (1 <= kc <= 8)%nat ->
+  wd - 2 <= 32 * (Z.of_nat kc - 1) -> 1 <= rb <= wd - 2 -> 1 <= ab <= wd - 2 ->
+  forall (off : Z) (a r0 : list Z), Forall (fun x => Z.abs x <= 2 ^ (wd - 2)) a ->
+  exists out, normalize_cross_c wd (32 * Z.of_nat kc) rb ab off a r0 = Some out /\ length out = length r0 /\
+    forall P, zn (length r0) * rb + zn (length a) * ab + Z.abs off <= P ->
+      let D := tor_abs P (val_scaled P rb out - val_scaled (P + off) ab a) in
+      D <= 2 ^ (P - zn (length r0) * rb) /\ (zn (length a) * ab - off <= zn (length r0) * rb -> D = 0).
+Proof. exact normalize_cross_c_value. Qed.
+Print Assumptions C08_wide_normalize_cross_c_value.
+
+(* offsets >= 0 need neither the bound on the width nor on the cap *)
+Theorem C08_wide_normalize_cross_c_value_pos : forall wd capbits rb ab : Z, 1 <= rb <= wd - 2 -> 1 <= ab <= wd - 2 ->
+  forall (off : Z) (a r0 : list Z), 0 <= off -> Forall (fun x => Z.abs x <= 2 ^ (wd - 2)) a ->
+  exists out, normalize_cross_c wd capbits rb ab off a r0 = Some out /\ length out = length r0 /\
+    forall P, zn (length r0) * rb + zn (length a) * ab + off <= P ->
+      let D := tor_abs P (val_scaled P rb out - val_scaled (P + off) ab a) in
+      D <= 2 ^ (P - zn (length r0) * rb) /\ (zn (length a) * ab - off <= zn (length r0) * rb -> D = 0).
+Proof. exact normalize_cross_c_value_pos. Qed.
+Print Assumptions C08_wide_normalize_cross_c_value_pos.
+
+(* vec_znx_normalize_cross_base2k (i64): the statement `normalize_cross_value_full` of Props/C08.v, now for every offset *)
+Theorem C08_cross_neg_normalize_cross_value : forall rb ab : Z, 1 <= rb <= 62 -> 1 <= ab <= 62 ->
+  forall (off : Z) (a r0 : list Z), hr62 a ->
+  exists out, normalize_cross 64 rb ab off a r0 = Some out /\ length out = length r0 /\
+    forall P, zn (length r0) * rb + zn (length a) * ab + Z.abs off <= P ->
+      let D := tor_abs P (val_scaled P rb out - val_scaled (P + off) ab a) in
+      D <= 2 ^ (P - zn (length r0) * rb) /\ (zn (length a) * ab - off <= zn (length r0) * rb -> D = 0).
+Proof. exact normalize_cross_value_all. Qed.
+Print Assumptions C08_cross_neg_normalize_cross_value.
+
+Example C08_cross_neg_normalize_cross_value_ex :
+  exists out, normalize_cross 64 5 12 (-31) [2 ^ 62; -5; 123456789012] [0; 0; 0; 0; 0; 0; 0; 0; 0] = Some out /\
+    tor_abs 120 (val_scaled 120 5 out - val_scaled (120 + -31) 12 [2 ^ 62; -5; 123456789012]) <= 2 ^ (120 - 9 * 5).
+Proof.
+  destruct (C08_cross_neg_normalize_cross_value 5 12 ltac:(lia) ltac:(lia) (-31) [2 ^ 62; -5; 123456789012]
+              [0; 0; 0; 0; 0; 0; 0; 0; 0]) as (out & E & _ & HV).
+  - repeat constructor; cbn; lia.
+  - exists out. split; [exact E|]. apply (HV 120). cbn. lia.
+Qed.
+
+(* a negative offset larger than the precision of res: only the rounded carry of a reaches res (gap rounding,
+   a * 2^-40 = 0.1875 + ... = 24 / 2^7 + ...); and an offset that leaves the top res limbs to the carry *)
+Example C08_cross_neg_gap_ex :
+  normalize_cross 64 7 3 (-40) [2 ^ 40 + 2 ^ 39; - 2 ^ 62; 5] [0; 0; 0; 0; 0] = Some [24; 0; 0; 0; 0] /\
+  normalize_cross 64 3 7 (-9) [-37; 2 ^ 61] [1; 1; 1; 1] = Some [0; 0; 0; -2].
+Proof. vm_compute. split; reflexivity. Qed.
+
+(* the dispatcher vec_znx_normalize of the i64 family: every pair of radices, every offset *)
+Theorem C08_wide_normalize_value_all : forall rb ab : Z, 1 <= rb <= 62 -> 1 <= ab <= 62 ->
+  forall (off : Z) (a r0 : list Z), hr62 a ->
+  exists out, normalize 64 rb ab off a r0 = Some out /\ length out = length r0 /\
+    forall P, zn (length r0) * rb + zn (length a) * ab + Z.abs off <= P ->
+      let D := tor_abs P (val_scaled P rb out - val_scaled (P + off) ab a) in
+      D <= 2 ^ (P - zn (length r0) * rb) /\ (zn (length a) * ab - off <= zn (length r0) * rb -> D = 0).
+Proof. exact normalize_value_all. Qed.
+Print Assumptions C08_wide_normalize_value_all.
+
+(* vec_znx_normalize_cross_big_base2k of the NTT120 family (i128 accumulators, cap 192 bits): every offset *)
+Theorem C08_wide_normalize_cross_big_value : forall rb ab : Z, 1 <= rb <= 126 -> 1 <= ab <= 126 ->
+  forall (off : Z) (a r0 : list Z), Forall (fun x => Z.abs x <= 2 ^ 126) a ->
+  exists out, normalize_cross_big 128 rb ab off a r0 = Some out /\ length out = length r0 /\
+    forall P, zn (length r0) * rb + zn (length a) * ab + Z.abs off <= P ->
+      let D := tor_abs P (val_scaled P rb out - val_scaled (P + off) ab a) in
+      D <= 2 ^ (P - zn (length r0) * rb) /\ (zn (length a) * ab - off <= zn (length r0) * rb -> D = 0).
+Proof. exact normalize_cross_big_value. Qed.
+Print Assumptions C08_wide_normalize_cross_big_value.
+
+Example C08_wide_normalize_cross_big_value_ex :
+  exists out, normalize_cross_big 128 5 12 (-31) [2 ^ 126; -5; - 2 ^ 100] [0; 0; 0; 0; 0; 0; 0; 0; 0] = Some out /\
+    tor_abs 120 (val_scaled 120 5 out - val_scaled (120 + -31) 12 [2 ^ 126; -5; - 2 ^ 100]) <= 2 ^ (120 - 9 * 5).
+Proof.
+  destruct (C08_wide_normalize_cross_big_value 5 12 ltac:(lia) ltac:(lia) (-31) [2 ^ 126; -5; - 2 ^ 100]
+              [0; 0; 0; 0; 0; 0; 0; 0; 0]) as (out & E & _ & HV).
+  - repeat constructor; cbn; lia.
+  - exists out. split; [exact E|]. apply (HV 120). cbn. lia.
+Qed.
+
+(* the dispatcher of the NTT120 big-accumulator normaliser: the hypothesis `normalize_value_ok` of the other
+   developments at width 128, for every pair of radices and every offset *)
+Theorem C08_wide_normalize_big_value : forall rb ab : Z, 1 <= rb <= 126 -> 1 <= ab <= 126 ->
+  forall (off : Z) (a r0 : list Z), Forall (fun x => Z.abs x <= 2 ^ 126) a ->
+  exists out, normalize_big 128 rb ab off a r0 = Some out /\ length out = length r0 /\
+    forall P, zn (length r0) * rb + zn (length a) * ab + Z.abs off <= P ->
+      let D := tor_abs P (val_scaled P rb out - val_scaled (P + off) ab a) in
+      D <= 2 ^ (P - zn (length r0) * rb) /\ (zn (length a) * ab - off <= zn (length r0) * rb -> D = 0).
+Proof. exact normalize_big_value. Qed.
+Print Assumptions C08_wide_normalize_big_value.
+
+(* the oracle on the dispatcher vec_znx_normalize (record code 8101): never 0, no restriction on the offset *)
+Theorem C08_cross_neg_coeff_ok_normalize : forall (rb ab off : Z) (a r0 : list Z), 1 <= rb <= 62 -> 1 <= ab <= 62 ->
+  exists out, normalize 64 rb ab off a r0 = Some out /\ coeff_ok rb ab off 0 1 (rb =? ab) a r0 out <> 0.
+Proof. exact coeff_ok_normalize_all. Qed.
+Print Assumptions C08_cross_neg_coeff_ok_normalize.
+
+(* ---------------- in-place normalisation and the shift family at any word width ---------------- *)
+(* the routines of Limbs.v instantiated at width w, headroom |x| <= 2^(w-2), radix 1 <= b <= w - 2; the right shifts
+   propagate a carry through a gap capped at 64 steps, hence `w - 2 <= 63 b` (every radix when w = 64) *)
+
+Theorem C08_wide_normalize_assign_value : forall w b : Z, 1 <= b <= w - 2 -> forall r0 : list Z,
+  Forall (fun x => Z.abs x <= 2 ^ (w - 2)) r0 ->
+  let out := normalize_assign w b r0 in
+  length out = length r0 /\ Forall (in_range b) out /\
+  forall P, 2 * zn (length r0) * b <= P -> tor_abs P (val_scaled P b out - val_scaled P b r0) = 0.
+Proof. exact normalize_assign_valueW. Qed.
+Print Assumptions C08_wide_normalize_assign_value.
+
+Theorem C08_wide_lsh_assign_value : forall w b : Z, 1 <= b <= w - 2 -> forall (k : Z) (r0 : list Z), 0 <= k ->
+  Forall (fun x => Z.abs x <= 2 ^ (w - 2)) r0 ->
+  let out := lsh_assign w b k r0 in
+  length out = length r0 /\ Forall (in_range b) out /\
+  forall P, 2 * zn (length r0) * b + k <= P ->
+    tor_abs P (val_scaled P b out - val_scaled (P + k) b r0) = 0.
+Proof. exact lsh_assign_valueW. Qed.
+Print Assumptions C08_wide_lsh_assign_value.
+
+Theorem C08_wide_lsh_value : forall w b : Z, 1 <= b <= w - 2 -> forall (ov : bool) (k : Z) (a r0 : list Z),
+  0 <= k -> Forall (fun x => Z.abs x <= 2 ^ (w - 2)) a -> (ov = false -> Forall (fun x => Z.abs x <= 2 ^ (w - 2)) r0) ->
+  let out := lsh w ov b k a r0 in
+  length out = length r0 /\ (ov = true -> Forall (in_range b) out) /\
+  forall P, zn (length r0) * b + zn (length a) * b + k <= P ->
+    let D := tor_abs P (val_scaled P b out - (if ov then 0 else val_scaled P b r0)
+                        - val_scaled (P + k) b a) in
+    D <= 2 ^ (P - zn (length r0) * b) /\ (zn (length a) * b - k <= zn (length r0) * b -> D = 0).
+Proof. exact lsh_valueW. Qed.
+Print Assumptions C08_wide_lsh_value.
+
+Theorem C08_wide_lsh_sub_value : forall w b : Z, 1 <= b <= w - 2 -> forall (k : Z) (a r0 : list Z),
+  0 <= k -> Forall (fun x => Z.abs x <= 2 ^ (w - 2)) a -> Forall (fun x => Z.abs x <= 2 ^ (w - 2)) r0 ->
+  let out := lsh_sub w b k a r0 in
+  length out = length r0 /\
+  forall P, zn (length r0) * b + zn (length a) * b + k <= P ->
+    let D := tor_abs P (val_scaled P b out - val_scaled P b r0 + val_scaled (P + k) b a) in
+    D <= 2 ^ (P - zn (length r0) * b) /\ (zn (length a) * b - k <= zn (length r0) * b -> D = 0).
+Proof. exact lsh_sub_valueW. Qed.
+Print Assumptions C08_wide_lsh_sub_value.
+
+Theorem C08_wide_rsh_assign_value : forall w b : Z, 1 <= b <= w - 2 -> w - 2 <= 63 * b ->
+  forall (k : Z) (r0 : list Z), 0 <= k -> Forall (fun x => Z.abs x <= 2 ^ (w - 2)) r0 ->
+  let out := rsh_assign w b k r0 in
+  length out = length r0 /\ Forall (in_range b) out /\
+  forall P, 2 * zn (length r0) * b + k <= P ->
+    let D := tor_abs P (val_scaled P b out - val_scaled (P - k) b r0) in
+    D <= 2 ^ (P - zn (length r0) * b) /\ (k = 0 -> D = 0).
+Proof. exact rsh_assign_valueW. Qed.
+Print Assumptions C08_wide_rsh_assign_value.
+
+Theorem C08_wide_rsh_ov_value : forall w b : Z, 1 <= b <= w - 2 -> w - 2 <= 63 * b ->
+  forall (k : Z) (a r0 : list Z), 0 <= k -> Forall (fun x => Z.abs x <= 2 ^ (w - 2)) a ->
+  let out := rsh w true b k a r0 in
+  length out = length r0 /\ Forall (in_range b) out /\
+  forall P, zn (length r0) * b + zn (length a) * b + k <= P ->
+    let D := tor_abs P (val_scaled P b out - val_scaled (P - k) b a) in
+    D <= 2 ^ (P - zn (length r0) * b) /\ (zn (length a) * b + k <= zn (length r0) * b -> D = 0).
+Proof. exact rsh_ov_valueW. Qed.
+Print Assumptions C08_wide_rsh_ov_value.
+
+Theorem C08_wide_rsh_add_value : forall w b : Z, 1 <= b <= w - 2 -> w - 2 <= 63 * b ->
+  forall (k : Z) (a r0 : list Z), 0 <= k ->
+  Forall (fun x => Z.abs x <= 2 ^ (w - 2)) a -> Forall (fun x => Z.abs x <= 2 ^ (w - 2)) r0 ->
+  let out := rsh w false b k a r0 in
+  length out = length r0 /\
+  forall P, zn (length r0) * b + zn (length a) * b + k <= P ->
+    let D := tor_abs P (val_scaled P b out - val_scaled P b r0 - val_scaled (P - k) b a) in
+    D <= 2 ^ (P - zn (length r0) * b) /\ (zn (length a) * b + k <= zn (length r0) * b -> D = 0).
+Proof. exact rsh_add_valueW. Qed.
+Print Assumptions C08_wide_rsh_add_value.
+
+Theorem C08_wide_rsh_sub_value : forall w b : Z, 1 <= b <= w - 2 -> w - 2 <= 63 * b ->
+  forall (k : Z) (a r0 : list Z), 0 <= k ->
+  Forall (fun x => Z.abs x <= 2 ^ (w - 2)) a -> Forall (fun x => Z.abs x <= 2 ^ (w - 2)) r0 ->
+  let out := rsh_sub w b k a r0 in
+  length out = length r0 /\
+  forall P, zn (length r0) * b + zn (length a) * b + k <= P ->
+    let D := tor_abs P (val_scaled P b out - val_scaled P b r0 + val_scaled (P - k) b a) in
+    D <= 2 ^ (P - zn (length r0) * b) /\ (zn (length a) * b + k <= zn (length r0) * b -> D = 0).
+Proof. exact rsh_sub_valueW. Qed.
+Print Assumptions C08_wide_rsh_sub_value.
+
+Example C08_wide_rsh_sub_value_ex :
+  let a := [2 ^ 126; -5; 123456789012; - 2 ^ 126] in
+  let r0 := [11; - 2 ^ 126] in
+  let out := rsh_sub 128 12 41 a r0 in
+  tor_abs 120 (val_scaled 120 12 out - val_scaled 120 12 r0 + val_scaled (120 - 41) 12 a) <= 2 ^ (120 - 2 * 12).
+Proof.
+  intros a r0 out.
+  destruct (C08_wide_rsh_sub_value 128 12 ltac:(lia) ltac:(lia) 41 a r0) as (_ & HV).
+  - lia.
+  - repeat constructor; cbn; lia.
+  - repeat constructor; cbn; lia.
+  - apply (HV 120). cbn. lia.
+Qed.
